@@ -104,7 +104,7 @@ def run(ctx, res):
     c = _c()
     res.rule = ('all strings up to length %d over {a, b, LF, A(non-table)} (exhaustive), Lua-like text, repeats at distances '
                 '3116..3124 with block lengths 14..20, texts with _update60 ending at every position relative to a block, '
-                'NUL-bearing texts; generated well-formed streams incl. overlapping references for the decoder; '
+                'NUL-bearing texts, texts containing the compatibility suffix (or parts of it) away from the end; generated well-formed streams incl. overlapping references for the decoder; '
                 'distinct non-trivial = distinct non-empty texts/streams' % ctx.budget(6, 8))
     batch = []
     maxlen = ctx.budget(6, 8)
@@ -127,6 +127,11 @@ def run(ctx, res):
         check_text(ctx, res, base + tail[:cut], 'update60', batch)
     for t in (b'\x00abc\x00', b'\x00', b'ab\x00\x00', b'_update60', b'x_update60 ', b'a' * 40, b'ab' * 30, bytes(range(256))):
         check_text(ctx, res, t, 'special', batch)
+    # the compatibility suffix (whole, or a proper prefix/suffix of it) anywhere but at the very end: an ordinary text, must round-trip
+    for fc in (c.PICO8_FUTURE_CODE1, c.PICO8_FUTURE_CODE2):
+        for t in (fc + b'\nx=1\n', b'x=1\n' + fc + b'\ny=2', fc + b' ', fc + fc[:-1], b'-- shim\n' + fc + b'\nfunction _draw() end\n',
+                  fc[1:], fc[:-1], b'a\n' + fc[:-1], fc[:len(fc) // 2] + b'\n' + fc[len(fc) // 2:], fc + b'\n'):
+            check_text(ctx, res, t, 'suffix-inside', batch)
     # known finding family: text that itself ends with the compatibility suffix
     check_text(ctx, res, b'x=1\n' + c.PICO8_FUTURE_CODE2, 'ends-with-suffix', batch)
     check_text(ctx, res, c.PICO8_FUTURE_CODE1, 'ends-with-suffix', batch)
